@@ -40,6 +40,8 @@ type DesignRun struct {
 	// Expect: negative control. The configuration switches one repair / rule of the model off and MUST violate one
 	// of the named invariants (comma separated); otherwise the model has lost the sensitivity the positive run relies on.
 	Expect string
+	// Apalache: if set, the run is `apalache-mc check <Apalache...> <Module>` instead of TLC (inductive invariants)
+	Apalache []string
 }
 
 type GenSpec struct {
@@ -519,6 +521,20 @@ func (r *SeqRun) design() {
 			continue
 		}
 		if r.Tier == "thorough" && strings.Contains(d.Note, "quick-only") {
+			continue
+		}
+		if d.Apalache != nil {
+			ok, out, wall, ierr := runApalache(d.Module, d.Apalache, d.Timeout, r.Scratch)
+			rec := map[string]any{"module": d.Module, "tool": "apalache-mc check " + strings.Join(d.Apalache, " "), "wall_s": wall, "note": d.Note, "outcome": map[bool]string{true: "NoError", false: "Error"}[ok]}
+			if ierr != nil {
+				r.infra("design %s (apalache): %v", d.Module, ierr)
+				rec["error"] = ierr.Error()
+				r.DesignOK = false
+			} else if !ok {
+				r.infra("design-level apalache run %s %v reported an error (model/spec problem, not a code verdict): %s", d.Module, d.Apalache, tail(out, 25))
+				r.DesignOK = false
+			}
+			r.Design = append(r.Design, rec)
 			continue
 		}
 		run := runTLC(d.Module, d.Cfg, d.Workers, d.Workers == 1, nil, nil, d.Timeout, r.Scratch)
